@@ -255,6 +255,9 @@ type registry struct {
 	// the parameter map handed to GlobalParameters and a private copy of it taken at that moment
 	gparams     wire.Parameters
 	gparamsCopy map[string]string
+	// option values handed to more than one server (an application builds its option list once and creates
+	// several servers from it): middleware index -> the option value created for the first server
+	sharedMw map[int]wire.OptionFn
 }
 
 // the user-supplied global parameter map is never modified by serving connections
@@ -567,7 +570,15 @@ func buildServer(c *cfgT, reg *registry, extra ...wire.OptionFn) (*wire.Server, 
 	}
 	for i, ok := range c.mws {
 		i, ok := i, ok
-		opts = append(opts, wire.SessionMiddleware(func(ctx context.Context) (context.Context, error) {
+		tag := c.tag
+		shared := c.shareMw && i >= 1
+		if shared && reg.sharedMw != nil {
+			if o, has := reg.sharedMw[i]; has {
+				opts = append(opts, o) // the very option value the first server was configured with
+				continue
+			}
+		}
+		o := wire.SessionMiddleware(func(ctx context.Context) (context.Context, error) {
 			r := reg.of(ctx)
 			r.checkCtx(ctx, false)
 			for j := 0; j < i; j++ {
@@ -575,12 +586,22 @@ func buildServer(c *cfgT, reg *registry, extra ...wire.OptionFn) (*wire.Server, 
 					r.bad("middleware %d did not receive the context of middleware %d", i, j)
 				}
 			}
+			if !shared && tag != r.cfg.tag {
+				r.bad("middleware %d registered on server %d ran for a connection of server %d", i, tag, r.cfg.tag)
+			}
 			r.add("mw", i)
 			if !ok {
 				return ctx, errors.New("middleware failure")
 			}
 			return context.WithValue(ctx, ctxKeyT(i), i), nil
-		}))
+		})
+		if shared {
+			if reg.sharedMw == nil {
+				reg.sharedMw = map[int]wire.OptionFn{}
+			}
+			reg.sharedMw[i] = o
+		}
+		opts = append(opts, o)
 	}
 	if c.term != "none" {
 		opts = append(opts, wire.TerminateConn(func(ctx context.Context) error {
@@ -749,6 +770,11 @@ func runSession(c *caseT) *obsT {
 	if err != nil {
 		panic(err)
 	}
+	return driveSession(c, conn, rec, srv)
+}
+
+// driveSession delivers the case's byte stream to [srv] over [conn] as the case prescribes.
+func driveSession(c *caseT, conn *memConn, rec *recorder, srv *wire.Server) *obsT {
 	o := &obsT{}
 	serveAsync(srv, conn, o)
 	rest := c.raw
